@@ -824,12 +824,23 @@ def staged(exe, scripts, is_bad, probe=16):
     return scripts
 
 
-def run_model(scripts, filter_unsolicited):
-    text = "".join(oracle_line(s, filter_unsolicited) + "\n" for s in scripts)
-    rc, out = vlib.run_oracle("client", text, timeout=900)
-    lines = out.split("\n")
-    if lines and lines[-1] == "":
-        lines.pop()
+def run_model(scripts, variant):
+    """model observations (one line per script). The oracle binary is shared by all checks built on
+    the client model and may be in the middle of being rebuilt by another check: retry."""
+    import time
+    text = "".join(oracle_line(s, variant) + "\n" for s in scripts)
+    lines = []
+    for attempt in range(8):
+        try:
+            rc, out = vlib.run_oracle("client", text, timeout=900)
+        except OSError:
+            rc, out = 1, ""
+        lines = out.split("\n")
+        if lines and lines[-1] == "":
+            lines.pop()
+        if rc == 0 and len(lines) == len(scripts):
+            return lines
+        time.sleep(1.5)
     return lines
 
 
@@ -880,10 +891,17 @@ def pick_variant(scripts, go):
     return best, best_d, counts
 
 
-def recheck(exe, script, flag):
-    """run one script again on Go and on the model (timing noise filter). returns differences"""
-    again, _ = run_go(exe, [script], shards=1)
+def recheck(exe, script, flag, tries=3):
+    """run one script again (up to `tries` times) on Go and on the model: a genuine disagreement is
+    deterministic and persists; scheduling noise does not. returns (differences, last Go observation)"""
     m = run_model([script], flag)
-    if not again or not m:
-        return ["no observation on re-run"], None
-    return compare(script, again[0], m[0]), again[0]
+    d, last = ["no observation on re-run"], None
+    for _ in range(tries):
+        again, _ = run_go(exe, [script], shards=1)
+        if not again or not m:
+            continue
+        last = again[0]
+        d = compare(script, last, m[0])
+        if not d:
+            return [], last
+    return d, last
